@@ -63,7 +63,7 @@ fn main() {
                     continue;
                 }
                 let huge = dw.max(dh) > 1000;
-                if huge && !matches!((body, pt), (Body::Horiz, Pt::U8) | (Body::Vert, Pt::U8) | (Body::MulAlpha, Pt::U8x4) | (Body::DivAlphaInplace, Pt::U16x2) | (Body::TwoPass, Pt::F32)) {
+                if huge && !matches!((body, pt), (Body::Horiz, Pt::U8) | (Body::Vert, Pt::U8) | (Body::MulAlpha, Pt::U8x4) | (Body::DivAlphaInplace, Pt::U16x2) | (Body::TwoPass, Pt::F32) | (Body::HorizCrop, Pt::U8x4)) {
                     continue;
                 }
                 cases += 1;
